@@ -125,6 +125,9 @@ class FakeSock:
                        if l.lower().startswith(b"sec-websocket-key:")][0]
                 self.head = wire.response_head(key)
             return len(data)
+        cap = self.sc.get("write_cap")
+        if cap:
+            data = data[:cap]
         self.sent.append(data)
         self.log({"ev": "tsend", "bytes": list(data)})
         return len(data)
